@@ -1,3 +1,4 @@
 import KamalProxy.Basic
 import KamalProxy.Std.HostPort
 import KamalProxy.Model.Routing
+import KamalProxy.Model.Rollout
